@@ -106,7 +106,7 @@ def run_deductive(P, tier, R):
     # second chance for anything left open: 6x budget (keeps solver noise from becoming an alarm)
     retry = [i for i, r in enumerate(res) if r["verdict"] != "unsat"]
     if retry and len(retry) <= 40:
-        res2 = solve.discharge([ex.obls[i] for i in retry], axioms, z3_ms=z3_ms * 6, cvc5_s=cvc5_s * 4, axioms_lite=lite)
+        res2 = solve.discharge([ex.obls[i] for i in retry], axioms, z3_ms=z3_ms * 3, cvc5_s=cvc5_s * 2, axioms_lite=lite)
         for i, r in zip(retry, res2):
             if r["verdict"] == "unsat":
                 res[i] = r
